@@ -20,25 +20,30 @@ theorem and_sizeMax {x M b : Nat} (hM : M + 1 = 2 ^ b) : x &&& M = x % 2 ^ b := 
   have : M = 2 ^ b - 1 := by omega
   rw [this, Nat.and_two_pow_sub_one_eq_mod]
 
+theorem two_pow_le_256 {b k : Nat} (h : b ≤ 8 * k) : 2 ^ b ≤ 256 ^ k := by
+  have : (256 : Nat) ^ k = 2 ^ (8 * k) := by rw [Nat.pow_mul]
+  rw [this]
+  exact Nat.pow_le_pow_right (by decide) h
+
 /-- reading back a serialised meta record -/
 theorem readMeta_ser (P : Params) (hP : P.Ok) (s i : Nat) (hs : s ≤ P.sizeMax) (rest : Bytes) :
     readMeta P (Item.ser P (.hdr s i) ++ rest)
       = ({ written := s, more := s == P.sizeMax, inner := i % (P.inMax + 1) }, rest) := by
+  obtain ⟨bs, hbs, hbs'⟩ := hP.size_fits
+  obtain ⟨bi, hbi, hbi'⟩ := hP.in_fits
   have h1 : s &&& P.sizeMax = s := by
-    rw [and_sizeMax hP.size_fits]; apply Nat.mod_eq_of_lt; have := hP.size_fits; omega
+    rw [and_sizeMax hbs]; apply Nat.mod_eq_of_lt; omega
   have h2 : i &&& P.inMax = i % (P.inMax + 1) := by
-    rw [and_sizeMax hP.in_fits, hP.in_fits]
+    rw [and_sizeMax hbi, hbi]
   have hs' : s % 256 ^ P.sizeBytes = s := by
     apply Nat.mod_eq_of_lt
-    have := hP.size_fits
-    rw [Nat.pow_mul] at this
-    simp at this; omega
+    have := two_pow_le_256 hbs'
+    omega
   have hi' : i % (P.inMax + 1) % 256 ^ P.inBytes = i % (P.inMax + 1) := by
     apply Nat.mod_eq_of_lt
-    have := hP.in_fits
-    rw [Nat.pow_mul] at this
-    simp at this
-    rw [← this]; apply Nat.mod_lt; omega
+    have := two_pow_le_256 hbi'
+    have : i % (P.inMax + 1) < P.inMax + 1 := Nat.mod_lt _ (by omega)
+    omega
   simp only [readMeta, Item.ser, h1, h2]
   have l1 := length_leBytes P.sizeBytes s
   have l2 := length_leBytes P.inBytes (i % (P.inMax + 1))
